@@ -30,6 +30,7 @@ const (
 	opRecv
 	opSelect
 	opCond
+	opQuiesce
 )
 
 type selCase struct {
@@ -414,6 +415,17 @@ func (s *Sched) enabled(t *T) bool {
 		return t.pend.def || len(s.readyCases(t)) > 0
 	case opCond:
 		return t.pend.ready()
+	case opQuiesce:
+		// enabled once nothing else can run (other quiescing threads do not count)
+		for _, o := range s.threads {
+			if o == t || o.done || (o.pend != nil && o.pend.kind == opQuiesce) {
+				continue
+			}
+			if s.enabled(o) {
+				return false
+			}
+		}
+		return true
 	}
 	return false
 }
@@ -664,6 +676,21 @@ func Cond(what string, ready func() bool) {
 	S.yield(t, &pending{kind: opCond, ready: ready, what: what})
 }
 
+// Quiesce blocks the calling thread until no other managed thread can run:
+// everything that was going to happen without further input has happened
+// (armed timers do not fire while a quiescing thread is enabled unless chosen
+// as a deviation).
+func Quiesce() {
+	t := cur()
+	if t == nil {
+		return
+	}
+	if S.killing {
+		runtime.Goexit()
+	}
+	S.yield(t, &pending{kind: opQuiesce, what: "quiesce"})
+}
+
 // Send is an instrumented channel send; op performs the real send.
 func Send(ch any, op func()) {
 	t := cur()
@@ -865,6 +892,15 @@ func Step() int {
 	s.mu.Lock()
 	defer s.mu.Unlock()
 	return s.Steps
+}
+
+// CurName is the name of the managed thread that is running ("" outside).
+func CurName() string {
+	s := S
+	if s == nil || !s.active || s.cur == nil {
+		return ""
+	}
+	return s.cur.Name
 }
 
 // Elapsed is virtual time since the start of the execution.
